@@ -6,6 +6,7 @@ CONSTANTS
   Keys = {"x"}
   Vals = {"1"}
   MaxLoops = 2
+  Construct = FALSE
   Concurrent = TRUE
 INVARIANT TypeOK
 INVARIANT CycleBounded
